@@ -61,7 +61,7 @@ def run(ctx):
             names = set(c for c in excl_calls)
             if names and names <= pnames and len(names) == 2:
                 verdicts.append(("dispatcher", names))
-            elif not names:
+            elif not names or read_only_helpers(fx, names, vreach):
                 verdicts.append(("assembly", names))
             else:
                 verdicts.append(("bad", names))
@@ -80,6 +80,24 @@ def run(ctx):
             ctx.finding("C10.F1", fn, "format-read", "crate-local function(s) %s run under only one serialization format" % bad, line=line)
     sibling(ctx, fx, ps, vreach)
     f3(ctx, fx)
+
+
+_FF = {}
+
+
+def read_only_helpers(fx, names, vreach):
+    """format-exclusive callees of an output assembler are harmless when they are not reachable from the verifier and (A8) mutate no
+    field of the engine / holder / issuer state: they can only compute the serialized form"""
+    for adt in (COMMON, "holder::SDJWTHolder", "issuer::SDJWTIssuer"):
+        if (id(fx), adt) not in _FF:
+            _FF[(id(fx), adt)] = FieldFlow(fx, adt)
+        for n in names:
+            if n in vreach:
+                return False
+            sm = _FF[(id(fx), adt)].summ.get(n)
+            if sm is not None and sm.may_mut:
+                return False
+    return True
 
 
 def format_switches(fn):
@@ -193,26 +211,26 @@ def sibling(ctx, fx, ps, vreach):
                     else:
                         ctx.finding("C10.F2", p, "verbatim:%s" % fld, "%s is taken from the `%s` member" % (what, pv.d.get("name")), line=w["line"])
                     continue
-                names = set()
-                bad_closure = None
-                for x in walk(v):
-                    if x.kind == "call":
-                        names.add(x.d["term"].get("name"))
-                    if x.kind == "agg" and x.d["agg"].get("kind") == "closure" and x.d["agg"].get("def") in fx.fns:
-                        cf = fx.fns[x.d["agg"]["def"]]
-                        if (cf.file, cf.line) and not any(t.get("name") in ("to_string", "format", "new_display", "new", "must_use", "fmt", "to_owned") for _, t in cf.calls()) and list(cf.calls()):
-                            bad_closure = cf.name
-                        rv = peel(vals(cf).return_value())
-                        if not list(cf.calls()) and rv.kind != "param":
-                            bad_closure = cf.name
-                extra = sorted(n for n in names if n not in LIST_OK and n not in ("len", "must_use", "format", "new", "new_display", "to_string"))
+                # position algebra: the list is parts[1 .. len-1] and the KB-JWT is parts[len-1] of input.split("~"), element for element
+                import seqmodel
+                if fld == "input_disclosures":
+                    r = seqmodel.seq_of(v)
+                    pos = (r[1], r[2]) if r else None
+                    want_pos = (1, 1)
+                else:
+                    r = seqmodel.elem_of(p, v)
+                    pos = r[1] if r else None
+                    want_pos = ("hi", 0)
                 has_split = any(x.kind == "call" and x.d["term"].get("name") == "split" and len(x.kids) == 2 and const_value(x.kids[1]) == "~" and peel(x.kids[0]).kind == "param" for x in walk(v))
                 if not has_split:
                     ctx.finding("C10.F2", p, "verbatim:%s" % fld, "%s is not taken from the `~`-separated parts of the input: %s" % (what, vstr(v, 4)), line=w["line"])
-                elif extra:
-                    ctx.finding("C10.F2", p, "verbatim:%s" % fld, "%s is filtered / reshaped while parsing (%s): the Compact form of a presentation no longer carries the same %s as its JSON form" % (what, ", ".join(extra), what), line=w["line"])
+                elif r is None or seqmodel.split_over(r[0])[1] != "~" or peel(seqmodel.split_over(r[0])[0]).kind != "param":
+                    names = sorted(set(x.d["term"].get("name") for x in walk(v) if x.kind == "call") - {"split", "collect", "deref"})
+                    ctx.finding("C10.F2", p, "verbatim:%s" % fld, "%s is filtered / reshaped while parsing (%s): the Compact form of a presentation no longer carries the same %s as its JSON form" % (what, ", ".join(names), what), line=w["line"])
+                elif pos != want_pos:
+                    ctx.finding("C10.F2", p, "verbatim:%s" % fld, "%s is taken from position %r of the `~`-separated parts (expected %r): the Compact form of a presentation no longer carries the same %s as its JSON form" % (what, pos, want_pos, what), line=w["line"])
                 else:
-                    ctx.ok("C10.F2", p, "verbatim:%s" % fld, "%s is the `~`-separated parts of the input, element for element" % what, line=w["line"])
+                    ctx.ok("C10.F2", p, "verbatim:%s" % fld, "%s is %s of the `~`-separated parts of the input, element for element" % (what, "parts[1..len-1]" if fld == "input_disclosures" else "the last part"), line=w["line"])
     # JSON parser: jwt rebuilt from protected, payload, signature in that order
     for p in ps:
         pv = vals(p)
